@@ -1000,4 +1000,48 @@ def r46_search_postcondition(ctx):
               "no search loop for %s" % missing, ("C20",))
 
 
+    # (c) a requested time unit zeroes every *lower* unit that was not
+    # requested (T-30 means minute 30, second 0): decision table of the
+    # defaulting statements in front of the first search
+    from ..dtable import explore
+    pro = []
+    for st in f.node.body:
+        if any(isinstance(x, (ast.While, ast.For)) for x in ast.walk(st)) or \
+                "to_hour_minute_second" in U(st):
+            break
+        pro.append(st)
+    names = ("hour_of_day", "minute_of_hour", "second_of_minute")
+    if all(n in params for n in names) and pro:
+        problems = []
+        import itertools
+        for p in explore(pro):
+            final = {n: (p.get(n) if p.get(n) is not None else n)
+                     for n in names}
+            fixed = {}
+            for n in names:
+                d = p.decisions.get("%s is None" % n)
+                if d is not None:
+                    fixed[n] = not d
+            free = [n for n in names if n not in fixed]
+            # a test the path never made holds either way on it
+            for combo in itertools.product((True, False), repeat=len(free)):
+                given = dict(fixed)
+                given.update(dict(zip(free, combo)))
+                for i, hi in enumerate(names):
+                    if not given[hi]:
+                        continue
+                    for lo in names[i + 1:]:
+                        if not given[lo] and final[lo] != "0":
+                            problems.append(
+                                "%s given, %s not given: %s stays %s" % (
+                                    hi, lo, lo, final[lo]))
+        rep.check(not problems, rule, ctx.fkey(f, None, "lower-units-zeroed"),
+                  f.loc(), "a requested time unit zeroes every lower unit "
+                  "that was not requested",
+                  "add_truncated: %s - the lower unit keeps the value of the "
+                  "point added to, so T-30 added to hh:mm:17 gives second 17 "
+                  "instead of the start of minute 30" %
+                  "; ".join(sorted(set(problems))), ("C20",))
+
+
 RULES["R46"] = r46_search_postcondition
